@@ -53,7 +53,7 @@ BuildFunction(reg, scope, isV, f) ==
                args |-> rargs, ret |-> rret, cc |-> cc])
 
 (* a placeholder slot `_vfunc_<i>` (i is the 0-based slot number)          *)
-PadName(i) == <<"_vfunc_", i>>
+PadName(i) == "_vfunc_" \o ToString(i)
 PadFunc(i) ==
   [vis |-> "priv", name |-> PadName(i), doc |-> <<>>, body |-> BodyVft(PadName(i)),
    args |-> <<ArgM>>, ret |-> TNone, cc |-> "thiscall"]
@@ -66,7 +66,7 @@ PadTo(out, n) == IF Len(out) >= n THEN out ELSE PadTo(Append(out, PadFunc(Len(ou
 (* end it is padded up to the declared size.                               *)
 (* `CHECKIDX` = the repaired behaviour: an index below the current length, *)
 (* or a declared size below the final length, is rejected.                 *)
-CHECKIDX == FALSE
+CHECKIDX == TRUE
 
 RECURSIVE ConvertFrom(_, _, _, _)
 ConvertFrom(reg, scope, fs, out) ==
